@@ -91,13 +91,13 @@ Theorem resp_stream_probe : forall wvalid wv, 1 <= wvalid -> 7 <= wv -> forall c
 Proof. exact resp_stream_gen. Qed.
 Print Assumptions resp_stream_probe.
 
-(* <C20-F1> *)
-(* a request (start_resp high in an idle cycle, value on vin, k >= 1 on size), then ANY environment stream (ready
+(* C20-F1: repaired in /repo, switched by fixes/C20_switch.py *)
+(* a request (start_resp high in an idle cycle, value on vin, ANY k >= 0 on size), then ANY environment stream (ready
    pacing arbitrary; vin/size/start_resp arbitrary, they are ignored while busy) with at least 2k+4 ready cycles:
    the stream splits at the return to idle, and up to there exactly '=' , the k hex digits MSB first, '!' were
-   transferred, one per valid&ready edge.  (k = 0 is finding C20-F1: resp_size0_refuted below.) *)
+   transferred, one per valid&ready edge.  (C20-F1 repaired: size 0 answers "=!".) *)
 Theorem resp_stream : forall wvalid wv, 1 <= wvalid -> 7 <= wv -> forall c0 value k st r0 env,
-  rs_idle c0 -> 1 <= k -> on st = true -> (Z.to_nat (2 * k + 4) <= ready_count env)%nat ->
+  rs_idle c0 -> 0 <= k -> on st = true -> (Z.to_nat (2 * k + 4) <= ready_count env)%nat ->
   let first := {| i_vin := value; i_size := k; i_start := st; i_ready := r0 |} in
   exists pre post, env = pre ++ post /\
     rs_xfers wvalid wv c0 (first :: pre) = response value (Z.to_nat k) /\
@@ -106,18 +106,16 @@ Proof. exact resp_stream_k. Qed.
 
 (* at every moment (no liveness assumption), as long as no new request arrives, what was transferred is a prefix *)
 Theorem resp_prefix : forall wvalid wv, 1 <= wvalid -> 7 <= wv -> forall c0 value k st r0 env,
-  rs_idle c0 -> 1 <= k -> on st = true -> Forall (fun i => i_start i = 0) env ->
+  rs_idle c0 -> 0 <= k -> on st = true -> Forall (fun i => i_start i = 0) env ->
   let first := {| i_vin := value; i_size := k; i_start := st; i_ready := r0 |} in
   exists rest, rs_xfers wvalid wv c0 (first :: env) ++ rest = response value (Z.to_nat k).
 Proof. exact resp_prefix_k. Qed.
 
-(* the guard k >= 1 is needed on this tree (witness by computation on the regenerated definition) *)
-Theorem resp_size0_refuted :
-  exists value env, forall rest,
-    rs_xfers 1 8 rs_reset ({| i_vin := value; i_size := 0; i_start := 1; i_ready := 1 |} :: env) ++ rest <> response value 0.
-Proof. exact Cmds.resp_size0_refuted. Qed.
-Print Assumptions resp_size0_refuted.
-(* </C20-F1> *)
+(* size = 0: exactly "=!" (computed on the regenerated definition) *)
+Theorem resp_size0 : rs_xfers 1 8 rs_reset ({| i_vin := 5; i_size := 0; i_start := 1; i_ready := 1 |} :: map (fun _ => in0 1) (seq 0 8)) = response 5 0 /\
+  response 5 0 = [61; 33].
+Proof. exact resp_size0_ok. Qed.
+Print Assumptions resp_size0.
 
 (* idle stays idle and transfers nothing until start_resp *)
 Theorem resp_idle : forall wvalid wv c i, rs_idle c -> i_start i = 0 ->
